@@ -48,9 +48,10 @@ def make_cfg(rng, profile):
     for _ in range(40):
         k = weighted(rng, pc)
         if k == 'refuse':
-            n = rng.choice([0, 1, 2, 3])
-            args = ['denied', {'code': 7}, [1, 2], 'x'][:n]
-            cfg['onConnect'].append({'refuse': args})
+            n = rng.choice([0, 1, 2, 2, 3, 4])
+            pool = [{'code': 7}, [1, 2], 'x', 0, '', [], {}, None, False, 5, True, 'why']
+            args = [rng.choice(['denied', 'no', ''])] + [rng.choice(pool) for _ in range(max(0, n - 1))]
+            cfg['onConnect'].append({'refuse': args[:n]})
         else:
             cfg['onConnect'].append(k)
     p_raise = profile.get('event_raise', 0.0)
